@@ -296,6 +296,14 @@ def gen_elf(rng, tier):
                         continue
                     body = u32(n) + u32(es) + u32(shndx) + b"".join(elf_entry(rng, es) for _ in range(present))
                     out.append(sweep(surround(rng, tag(9, body, rng=rng))))
+    # section bytes that are NOT a whole number of entries: the string-table index may designate the partial trailing slot
+    for es in (40, 64):
+        for n in (1, 2, 3):
+            for resid in (1, 8, es - 1):
+                for shndx in (0, n - 1, n, n + 1):
+                    body = u32(n) + u32(es) + u32(shndx) + b"".join(elf_entry(rng, es, 1) for _ in range(n)) + rbytes(rng, resid)
+                    out.append(sweep(surround(rng, tag(9, body, rng=rng))))
+                    out.append("ELFNAME %d %d %d %s %s" % (es, n, shndx, hx(b"".join(elf_entry(rng, es, 1)[:0] + bytes(bytearray(u32(1)) + bytearray(elf_entry(rng, es, 1))[4:]) for _ in range(n)) + rbytes(rng, resid)), hx(b"\0ab\0")))
     for es in (40, 64):
         for typ in [0, 1, 2, 3, 4, 5, 6, 7, 8, 9, 10, 11, 12, 0x5FFFFFFF, 0x60000000, 0x6FFFFFFF, 0x70000000, 0x7FFFFFFF, 0x80000000, 0xFFFFFFFF]:
             body = u32(2) + u32(es) + u32(0) + elf_entry(rng, es, typ) + elf_entry(rng, es, 1)
@@ -500,4 +508,33 @@ def gen_headers_adversarial(rng, n):
         elif choice == 2:
             region = bytearray(header(tags, end=False))
         out.append(hsweep(bytes(region)))
+    return out
+
+
+def gen_scale(rng):
+    """counts / lengths around the 8- and 16-bit boundaries and simply large structures"""
+    out = []
+    for n in (254, 255, 256, 257, 1000):
+        out.append(sweep(mbi([t_fb(rng, typ=0, colors=n)])))
+        out.append(sweep(mbi([t_cmdline(rng, rstr(rng, n)), t_loader(rng, rstr(rng, n + 1)), t_module(rng, rstr(rng, n))])))
+        out.append(sweep(mbi([t_smbios(rng, n), t_network(rng, n)])))
+    for n in (10, 11, 100, 300):
+        out.append(sweep(mbi([t_mmap(rng, n)])))
+        out.append(sweep(mbi([t_efi_mmap(rng, ds=rng.choice([40, 48, 4096 if n <= 11 else 56]), n=n)])))
+        out.append(sweep(mbi([t_elf(rng, n=n, es=rng.choice([40, 64]))])))
+        out.append(sweep(mbi([t_module(rng) for _ in range(n)])))
+    out.append(sweep(mbi([t_meminfo(rng) for _ in range(1000)])))
+    out.append(sweep(mbi([t_custom(rng) for _ in range(500)] + [t_cmdline(rng)])))
+    for ver in (0xFFFFFFFF, 0x80000000, 3):
+        out.append(sweep(mbi([tag(17, u32(40) + u32(ver) + rbytes(rng, 40), rng=rng)])))
+    for ds in (4096, 0x10000, 0xFFFFFFF8, 0xFFFFFFFF, 0x80000000):
+        out.append(sweep(mbi([tag(17, u32(ds) + u32(1) + rbytes(rng, 80), rng=rng)])))
+    return out
+
+
+def gen_headers_scale(rng):
+    out = []
+    for n in (63, 64, 255, 256, 257, 1000):
+        out.append(hsweep(header([htag(1, rng.randrange(2), rbytes(rng, 4 * n), rng=rng)])))
+    out.append(hsweep(header([rand_htag(rng, rng.choice([2, 3, 4, 5, 6, 7, 8, 9, 10])) for _ in range(400)])))
     return out
